@@ -9,7 +9,7 @@ from .. import tlc
 from ..common import Report, pmap
 from ..forcedrv import space_scenario
 
-FAMILY = r"^(obs\.|run\.crashed|setup\.valid)"
+FAMILY = r"^(obs\.|run\.crashed|setup\.valid|trace\.incomplete)"
 def exhaustive_scenario(rng):
     return space_scenario(rng, exhaustive=True)
 
